@@ -554,15 +554,15 @@ func runHistory(t *rapid.T, kind string) {
 }
 
 func TestPropMemorySequencer(t *testing.T) {
-	vlib.Check(t, 2500, 30000, func(t *rapid.T) { runHistory(t, "memory") })
+	vlib.Check(t, 6000, 40000, func(t *rapid.T) { runHistory(t, "memory") })
 }
 
 func TestPropEtcdSequencer(t *testing.T) {
-	vlib.Check(t, 1500, 20000, func(t *rapid.T) { runHistory(t, "etcd") })
+	vlib.Check(t, 3000, 25000, func(t *rapid.T) { runHistory(t, "etcd") })
 }
 
 func TestPropSnowflakeSequencer(t *testing.T) {
-	vlib.Check(t, 1500, 15000, func(t *rapid.T) { runHistory(t, "snowflake") })
+	vlib.Check(t, 3000, 20000, func(t *rapid.T) { runHistory(t, "snowflake") })
 }
 
 // ---------------------------------------------------------------- finding probes
@@ -708,6 +708,10 @@ func around(all []rec, i int) string {
 
 func TestRaceSequencerHammer(t *testing.T) {
 	rounds := vlib.Pick(2, 6)
+	casConflicts := 0
+	defer func() {
+		vlib.Class(fmt.Sprintf("race-etcd-compare-and-swap-conflicts-retried=%d", casConflicts))
+	}()
 	for round := 0; round < rounds; round++ {
 		seed := int64(vlib.Seed()*1000 + vlib.Shard()*100 + round)
 		hammer(t, "memory", []sequence.Sequencer{sequence.NewMemorySequencer()}, 16, 2000, 10000, true, true, seed)
@@ -732,7 +736,7 @@ func TestRaceSequencerHammer(t *testing.T) {
 			foreign = false
 		}
 		hammer(t, "etcd-2-instances", seqs, 16, 150, 10000, true, foreign, seed)
-		vlib.Note(fmt.Sprintf("etcd hammer: %d compare-and-swap conflicts retried", kv.cas))
+		casConflicts += kv.cas
 		os.RemoveAll(dir)
 
 		sf, err := sequence.NewSnowflakeSequencer("master0:9333")
